@@ -14,7 +14,7 @@ import (
 // id of its first valid vote of the step and the set of block ids it validly signed.
 type oracleState struct {
 	first   [4]int8 // -1 = nothing yet
-	offered uint32  // bit nBlk*i+b: validator i validly signed block id b
+	offered uint64  // bit nBlk*i+b: validator i validly signed block id b
 }
 
 func newOracle() oracleState { return oracleState{first: [4]int8{-1, -1, -1, -1}} }
